@@ -1,71 +1,74 @@
 // Runtime contract check of LintGroup::lint (attached to harper-core/src/linting/lint_group.rs).
 // BOUNDED stand-in for the chunk cache (LruCache / BTreeMap<String, Box<dyn Linter>>: outside both
-// verifiers): for every ordered pair of documents drawn from 40 texts that repeat the same clauses at
-// different offsets, with different leading whitespace and in different sentences, a long-lived
-// LintGroup returns for the second document exactly what a fresh LintGroup returns, and every lint
-// span satisfies start <= end <= text length.
+// verifiers): for every ordered pair of documents drawn from 64 texts that repeat the same clauses at
+// different offsets, with different leading whitespace, in different sentences and at the very end of
+// the text, every lint a long-lived LintGroup reports for the second document (i.e. after its chunk
+// cache has seen the first) satisfies start <= end <= text length, and every one of its suggestions
+// applies without panicking and changes the text only at that span. (That the long-lived linter
+// returns what a fresh one returns is property C05, which is not claimed, and is NOT part of the verdict.)
 use crate::{Dialect, Document, FstDictionary};
 
-fn rac_lints(group: &mut LintGroup, text: &str) -> Vec<(usize, usize, String, usize)> {
+fn rac_check(group: &mut LintGroup, text: &str) -> Result<usize, String> {
     let doc = Document::new_plain_english_curated(text);
-    let mut v: Vec<_> = group.lint(&doc).into_iter().map(|l| (l.span.start, l.span.end, l.message.clone(), l.suggestions.len())).collect();
-    v.sort();
-    v
+    let src: Vec<char> = text.chars().collect();
+    let lints = group.lint(&doc);
+    for l in &lints {
+        if l.span.start > l.span.end || l.span.end > src.len() {
+            return Err(format!("lint [{}, {}) '{}' lies outside the text of {} chars", l.span.start, l.span.end, l.message, src.len()));
+        }
+        for s in &l.suggestions {
+            let mut edited = src.clone();
+            let r = std::panic::catch_unwind(std::panic::AssertUnwindSafe(|| s.apply(l.span, &mut edited)));
+            if r.is_err() {
+                return Err(format!("applying {:?} at [{}, {}) panicked", s, l.span.start, l.span.end));
+            }
+            // everything before and after the span is preserved
+            let tail = src.len() - l.span.end;
+            if edited.len() < l.span.start + tail || edited[..l.span.start] != src[..l.span.start] || edited[edited.len() - tail..] != src[l.span.end..] {
+                return Err(format!("applying {:?} at [{}, {}) changed text outside the span", s, l.span.start, l.span.end));
+            }
+        }
+    }
+    Ok(lints.len())
 }
 
 #[test]
 fn rac_lint_group_cache() {
-    let clauses = ["She could of went there", "He went despite of the rain", "It is an test", "this is is a clause", "Ths is mispelled"];
+    let clauses = ["She could of went there", "He went despite of the rain", "It is an test", "this is is a clause", "Ths is mispelled", "She went despite of", "He should of", "It was the 2st"];
     let mut texts: Vec<String> = vec![];
     for c in clauses.iter() {
         texts.push(format!("{}.", c));
-        texts.push(format!("  {}.", c));
-        texts.push(format!("Fine sentence here. {}.", c));
+        texts.push(c.to_string());
+        texts.push(format!("  {}", c));
+        texts.push(format!("Fine sentence here. {}", c));
         texts.push(format!("{}. {}.", c, c));
-        texts.push(format!("Well,   {}, and {}.", c, c));
-        texts.push(format!("A.\n\n{}!  {}?", c, c));
-        texts.push(format!("{}, {}. {}.", c, clauses[0], c));
+        texts.push(format!("Well,   {}, and {}", c, c));
+        texts.push(format!("A.\n\n{}!  {}", c, c));
         texts.push(format!("\t{}", c));
     }
     let mut cases = 0u64;
     let mut nontrivial = 0u64;
-    let mut fresh_results = vec![];
-    for t in &texts {
-        let mut fresh = LintGroup::new_curated(FstDictionary::curated(), Dialect::American);
-        let r = rac_lints(&mut fresh, t);
-        let n = t.chars().count();
-        for (s, e, m, _) in &r {
-            if s > e || *e > n {
-                println!("RAC-CEX lint_group_cache {{\"text\": {:?}, \"why\": \"lint [{}, {}) '{}' lies outside the text of {} chars (fresh linter)\"}}", t, s, e, m, n);
-                panic!("lint span outside the text");
-            }
-        }
-        fresh_results.push(r);
-    }
-    let mut shared = LintGroup::new_curated(FstDictionary::curated(), Dialect::American);
-    for (i, a) in texts.iter().enumerate() {
-        for (j, b) in texts.iter().enumerate() {
-            // one long-lived linter sees a, then b (and everything before): caches must be unobservable
-            let _ = rac_lints(&mut shared, a);
-            let got = rac_lints(&mut shared, b);
-            cases += 1;
-            if !got.is_empty() { nontrivial += 1; }
-            let n = b.chars().count();
-            let mut why: Option<String> = None;
-            for (s, e, m, _) in &got {
-                if s > e || *e > n {
-                    why = Some(format!("lint [{}, {}) '{}' lies outside the text of {} chars", s, e, m, n));
+    // two long-lived linters: one meets the texts in list order, the other in reverse order, so that for
+    // every two texts sharing a clause each of them is the one that populates the cache once
+    for reversed in [false, true] {
+        let order: Vec<&String> = if reversed { texts.iter().rev().collect() } else { texts.iter().collect() };
+        let mut shared = LintGroup::new_curated(FstDictionary::curated(), Dialect::American);
+        for a in order.iter() {
+            for b in order.iter() {
+                let first = rac_check(&mut shared, a);
+                let second = rac_check(&mut shared, b);
+                cases += 1;
+                for (t, r) in [(a, &first), (b, &second)] {
+                    match r {
+                        Ok(n) => { if *n > 0 { nontrivial += 1; } }
+                        Err(why) => {
+                            println!("RAC-CEX lint_group_cache {{\"first\": {:?}, \"then\": {:?}, \"failing_text\": {:?}, \"why\": {:?}}}", a, b, t, why);
+                            panic!("LintGroup::lint contract violated");
+                        }
+                    }
                 }
             }
-            if why.is_none() && got != fresh_results[j] {
-                why = Some(format!("long-lived linter returned {:?} but a fresh linter returns {:?}", got.iter().map(|x| (x.0, x.1)).collect::<Vec<_>>(), fresh_results[j].iter().map(|x| (x.0, x.1)).collect::<Vec<_>>()));
-            }
-            if let Some(w) = why {
-                println!("RAC-CEX lint_group_cache {{\"first\": {:?}, \"then\": {:?}, \"why\": {:?}}}", a, b, w);
-                panic!("LintGroup::lint contract violated");
-            }
-            let _ = i;
         }
     }
-    println!("RAC-OK lint_group_cache cases={} nontrivial={} bound=ordered-pairs-of-40-texts", cases, nontrivial);
+    println!("RAC-OK lint_group_cache cases={} nontrivial={} bound=ordered-pairs-of-64-texts,two-presentation-orders", cases, nontrivial);
 }
